@@ -196,16 +196,19 @@ def run_lev(c):
     res["lev"] = {"num": [fr(to_frac(x)) for x in filt.numerator], "err": fr(to_frac(filt.error))}
   except Exception as e:
     return {"lev": {"raise": type(e).__name__}, "pc": {"raise": "skipped"}}
-  res["pc"] = observe_parcor(lambda: filt)
+  res["pc"] = observe_parcor(lambda: filt, len(c["r"]) + (c["order"] or 0) + 8)
   return res
 
 
-def observe_parcor(mk):
+def observe_parcor(mk, cap):
   import audiolazy
   ks = []
   try:
-    for k in audiolazy.parcor(mk()):
+    filt = mk()
+    for k in audiolazy.parcor(filt):
       ks.append(fr(to_frac(k)))
+      if len(ks) > cap:            # (cap >= order of the filter) a generator that does not end is an observation, not a hang
+        return {"raise": "EndlessGenerator", "ks": ks[:4]}
   except audiolazy.ParCorError:
     return {"ks": ks, "err": True}
   except Exception as e:
@@ -284,7 +287,7 @@ def run_pc(c):
     filt = audiolazy.ZFilter(num, den)
   except Exception as e:
     return {"raise": type(e).__name__, "where": "constructor"}
-  return observe_parcor(lambda: filt)
+  return observe_parcor(lambda: filt, len(c["num"]) + 8)
 
 
 def lit_pc(c, o):
@@ -418,9 +421,11 @@ def nontrivial_coef(c, o):
   return len(c["den"]) >= 3 and "stable" in o
 
 
+# a case runs in well under a second; the 30 s watchdog keeps a loaded machine (other checks running concurrently)
+# from turning a stalled process into a spurious Timeout observation; endless generators are cut by observe_parcor
 FAMILIES = {
-  "lev": Family("lev", IMPORTS, "lcase", "corr_lev", "holds_lev", gen_lev, run_lev, lit_lev, nontrivial_lev),
-  "pc": Family("pc", IMPORTS, "pcase", "corr_pc", "holds_pc", gen_pc, run_pc, lit_pc, nontrivial_pc),
-  "stab": Family("stab", IMPORTS, "scase", "corr_stab", "holds_stab", gen_stab, run_stab, lit_stab, nontrivial_stab),
-  "coef": Family("coef", IMPORTS, "ccase", "corr_coef", "holds_coef", gen_coef, run_coef, lit_coef, nontrivial_coef),
+  "lev": Family("lev", IMPORTS, "lcase", "corr_lev", "holds_lev", gen_lev, run_lev, lit_lev, nontrivial_lev, timeout=30),
+  "pc": Family("pc", IMPORTS, "pcase", "corr_pc", "holds_pc", gen_pc, run_pc, lit_pc, nontrivial_pc, timeout=30),
+  "stab": Family("stab", IMPORTS, "scase", "corr_stab", "holds_stab", gen_stab, run_stab, lit_stab, nontrivial_stab, timeout=30),
+  "coef": Family("coef", IMPORTS, "ccase", "corr_coef", "holds_coef", gen_coef, run_coef, lit_coef, nontrivial_coef, timeout=30),
 }
